@@ -62,6 +62,13 @@ def copyData (a0 : Int) (src : Dir) (rechunk : Bool) (rechunkTo : Nat) : Except 
   let loaded ← loadDir src
   saveAll a0 rechunk hdr (loaded.map (setTarget hdr.target))
 
+/-- `copy_to_frontend(run, target, target_frontend_id=None)`: every frontend that does not have the
+data yet, takes it and is writable is filled in turn.  A NEW loader is created inside the loop for
+every target ("it's a generator and will be exhausted otherwise"), so each of the `nTargets`
+destinations is a full `copyData` of the source. -/
+def copyToAll (a0 : Int) (src : Dir) (rechunk : Bool) (rechunkTo : Nat) (nTargets : Nat) : List (Except Err Dir) :=
+  List.replicate nTargets (copyData a0 src rechunk rechunkTo)
+
 /-! ## 2. the stand-alone rechunker over a store of directories -/
 
 /-- the directories the rechunker can touch: the source, `<dest>_temp`, the destination.
